@@ -803,6 +803,10 @@ fn process_item(src: &Src, all: &[(String, &syn::Item)], req: &ItemReq) -> ItemO
             return out;
         }
     };
+    // identity entries (K=K) mean "leave this parameter generic"
+    let mut req_owned = req.clone();
+    req_owned.subst.retain(|k, v| k != v);
+    let req = &req_owned;
     let mut ctx = Ctx { src, req, edits: Edits::default() };
     let mut log: Vec<EditLog> = Vec::new();
     let res: Result<(usize, usize, usize, usize), String> = (|| {
@@ -869,6 +873,11 @@ fn process_item(src: &Src, all: &[(String, &syn::Item)], req: &ItemReq) -> ItemO
                     }
                 }
                 let vs = vis_or(src, &s.vis, &s.struct_token, &s.ident);
+                match &s.vis {
+                    syn::Visibility::Public(_) => {}
+                    syn::Visibility::Inherited => ctx.edits.insert(vs, "pub ".to_string(), "D10", "type visibility widened to pub (single-file crate)".to_string()),
+                    v => ctx.edits.replace(src.start(v), src.end(v), "pub".to_string(), "D10", "type visibility widened to pub (single-file crate)".to_string()),
+                }
                 let e = src.end(s);
                 Ok((vs, e, src.start(s), e))
             }
